@@ -54,6 +54,14 @@ reg('C18',
     'float64; first batch has positive total weight; NumPy reference',
     'DESIGN.md section 4 C18')
 
+reg('C15',
+    'model-based testing: exhaustive enumeration of all termination schedules in a small scope against a plain-Python episode model + Hypothesis-generated longer histories, unrolls and evaluator runs',
+    'Exhaustive up to the bound: all 256 schedules over inner steps 1-8 x episode_length 1-6 x action_repeat 1-3 x sticky/non-sticky x {training.wrap, envs.create} x '
+    '{with, without EvalWrapper}: done, truncation, steps, summed reward, metrics, observation and restored state agree with the model after every wrapped step over '
+    '3 episode lengths. Beyond: sampled 24-bit schedules with L<=20, r<=4, acting.generate_unroll chaining/discount/extras and Evaluator.run_evaluation metrics.',
+    'scripted deterministic environment stands for any environment; wrapped step is atomic; brax.v1 stubbed',
+    'DESIGN.md section 4 C15')
+
 PENDING = {}
 
 
